@@ -12,6 +12,7 @@ import (
 	"fmt"
 	"go/types"
 	"hash"
+	"strings"
 )
 
 type hashState struct {
@@ -90,8 +91,34 @@ func sameValues(a, b []value) bool {
 
 // digestOf returns the digest of input under (alg,key).
 func (in *Interp) digestOf(alg string, key, input []value) []value {
+	return in.digestOfN(alg, key, input, hashSize(alg))
+}
+
+// digestOfN: digest (or, for alg "sig:<scheme>", ideal deterministic signature) of n octets.
+func (in *Interp) digestOfN(alg string, key, input []value, n int) []value {
 	if ib, ok := concreteBytes(input); ok {
 		if kb, ok2 := concreteBytes(key); ok2 {
+			if strings.HasPrefix(alg, "sig:") {
+				// all-concrete pseudo signature: expand SHA-512(alg || key || input) to n octets
+				out := make([]value, 0, n)
+				for ctr := 0; len(out) < n; ctr++ {
+					h := sha512.New()
+					h.Write([]byte{byte(ctr)})
+					h.Write([]byte(alg))
+					h.Write([]byte{0, byte(len(kb) >> 8), byte(len(kb))})
+					h.Write(kb)
+					h.Write(ib)
+					for _, c := range h.Sum(nil) {
+						if len(out) < n {
+							out = append(out, uint64(c))
+						}
+					}
+				}
+				if out[0] == uint64(0) {
+					out[0] = uint64(1)
+				}
+				return out
+			}
 			var h hash.Hash
 			if key != nil {
 				h = hmac.New(nativeHash(alg), kb)
@@ -116,7 +143,6 @@ func (in *Interp) digestOf(alg string, key, input []value) []value {
 	if in.noFork > 0 {
 		panic(mergeAbort{})
 	}
-	n := hashSize(alg)
 	id := len(recs)
 	d := make([]value, n)
 	for i := range d {
@@ -126,10 +152,19 @@ func (in *Interp) digestOf(alg string, key, input []value) []value {
 	// ideal primitive: equal (key,input) <=> equal digest, against every earlier record of the same shape
 	ts := in.ts
 	for _, r := range recs {
-		if r.alg != alg || len(r.input) != len(input) || len(r.key) != len(key) {
+		if r.alg != alg || len(r.digest) != n {
 			continue
 		}
 		if _, conc := concreteBytes(r.digest); conc {
+			continue
+		}
+		if len(r.input) != len(input) || len(r.key) != len(key) {
+			// ideal primitive: inputs of different length never collide
+			neq := ts.False
+			for i := range d {
+				neq = ts.Or(neq, ts.Not(ts.Eq(in.toTerm(r.digest[i], 8), in.toTerm(d[i], 8))))
+			}
+			in.assume(norm(neq))
 			continue
 		}
 		eqIn := ts.True
@@ -230,4 +265,265 @@ func init() {
 		key := append([]value{}, args[1].([]value)...)
 		return in.digestOf(alg, key, args[2].([]value))
 	}
+}
+
+// ---------- signatures (ideal, deterministic, unforgeable) and math/big as opaque octet strings ----------
+//
+// A signature over digest d under public key k and scheme s is digestOfN("sig:"+s, k, d, n): fresh
+// symbolic octets tied to every other signature of the same scheme by "equal (key,digest) <=> equal
+// signature". Verification succeeds iff the presented signature equals the ideal signature for the
+// presented key and digest. Key identity is the canonical public key octets (RSA: E as 4 octets || N;
+// ECDSA: X || Y left-padded to the curve size; Ed25519: the 32 key octets).
+
+func bigBytes(in *Interp, p value) []value {
+	ptr, ok := p.(*value)
+	if !ok || ptr == nil {
+		in.targetPanicStr("runtime error: invalid memory address or nil pointer dereference")
+	}
+	st := (*ptr).(structV)
+	b, _ := st[1].([]value)
+	return b
+}
+
+// stripZeros removes leading zero octets; a symbolic octet forks (at most maxFork times, then assumed non-zero).
+func (in *Interp) stripZeros(b []value, maxFork int) []value {
+	forks := 0
+	for len(b) > 0 {
+		switch c := b[0].(type) {
+		case uint64:
+			if c != 0 {
+				return b
+			}
+			b = b[1:]
+			continue
+		case *Term:
+			z := in.ts.Eq(c, in.ts.Const(8, 0))
+			if forks >= maxFork {
+				in.assume(norm(in.ts.Not(z)))
+				return b
+			}
+			forks++
+			if in.decide(z, "big.leadingzero") {
+				b = b[1:]
+				continue
+			}
+			return b
+		}
+		return b
+	}
+	return b
+}
+
+func padLeft(b []value, n int) ([]value, bool) {
+	if len(b) > n {
+		return nil, false
+	}
+	out := make([]value, 0, n)
+	for i := len(b); i < n; i++ {
+		out = append(out, uint64(0))
+	}
+	return append(out, b...), true
+}
+
+func sigScheme(alg uint64, hashID uint64) (string, bool) {
+	switch alg {
+	case 5, 7, 8, 10:
+		return fmt.Sprintf("rsa-h%d", hashID), true
+	case 13:
+		return "ecdsa-P256", true
+	case 14:
+		return "ecdsa-P384", true
+	case 15:
+		return "ed25519", true
+	}
+	return "", false
+}
+
+func (in *Interp) bytesEqTerm(a, b []value) value {
+	return in.strEq(strFromBytes(a), strFromBytes(b))
+}
+
+func init() {
+	ext := externals
+	ext["(*math/big.Int).SetBytes"] = func(in *Interp, fr *frame, args []value) value {
+		ptr := args[0].(*value)
+		b := append([]value(nil), args[1].([]value)...)
+		in.store(ptr, structV{false, b})
+		in.stubs["math/big.Int(opaque octets)"]++
+		return ptr
+	}
+	ext["(*math/big.Int).Bytes"] = func(in *Interp, fr *frame, args []value) value {
+		b := in.stripZeros(bigBytes(in, args[0]), 1)
+		return append([]value(nil), b...)
+	}
+	ext["crypto/elliptic.P256"] = func(in *Interp, fr *frame, args []value) value {
+		return iface{t: types.Typ[types.UnsafePointer], v: &native{kind: "curve", obj: "P256"}}
+	}
+	ext["crypto/elliptic.P384"] = func(in *Interp, fr *frame, args []value) value {
+		return iface{t: types.Typ[types.UnsafePointer], v: &native{kind: "curve", obj: "P384"}}
+	}
+	// harness seam: Signer.Sign of the fixed test key. args: alg, hashID, canonical public key, digest
+	ext[hname("vSignDigest")] = func(in *Interp, fr *frame, args []value) value {
+		alg, hid := args[0].(uint64), args[1].(uint64)
+		pub := append([]value(nil), args[2].([]value)...)
+		dig := append([]value(nil), args[3].([]value)...)
+		scheme, ok := sigScheme(alg, hid)
+		if !ok {
+			panic(in.unsupported("vSignDigest: algorithm %d", alg))
+		}
+		in.stubs["sign:"+scheme]++
+		switch alg {
+		case 13, 14:
+			n := 64
+			if alg == 14 {
+				n = 96
+			}
+			rs := in.digestOfN("sig:"+scheme, pub, dig, n)
+			// at most one leading zero octet in R and in S (stated assumption)
+			for _, i := range []int{1, n/2 + 1} {
+				if t, isT := rs[i].(*Term); isT {
+					in.assume(norm(in.ts.Not(in.ts.Eq(t, in.ts.Const(8, 0)))))
+				}
+			}
+			// opaque DER stand-in understood by the asn1.Unmarshal stub
+			out := []value{uint64(0x30), uint64(0xEC), alg}
+			return append(out, rs...)
+		case 15:
+			return in.digestOfN("sig:"+scheme, pub, dig, 64)
+		}
+		// RSA: signature as long as the modulus (canonical key = 4 octets E || N)
+		return in.digestOfN("sig:"+scheme, pub, dig, len(pub)-4)
+	}
+	ext[hname("vSignWire")] = func(in *Interp, fr *frame, args []value) value {
+		alg, hid := args[0].(uint64), args[1].(uint64)
+		pub := append([]value(nil), args[2].([]value)...)
+		dig := append([]value(nil), args[3].([]value)...)
+		scheme, ok := sigScheme(alg, hid)
+		if !ok {
+			panic(in.unsupported("vSignWire: algorithm %d", alg))
+		}
+		in.stubs["sign:"+scheme]++
+		n := 64
+		switch alg {
+		case 14:
+			n = 96
+		case 5, 7, 8, 10:
+			n = len(pub) - 4
+		}
+		return in.digestOfN("sig:"+scheme, pub, dig, n)
+	}
+	ext[hname("vVerifyWire")] = func(in *Interp, fr *frame, args []value) value {
+		alg, hid := args[0].(uint64), args[1].(uint64)
+		pub := append([]value(nil), args[2].([]value)...)
+		dig := append([]value(nil), args[3].([]value)...)
+		sig := args[4].([]value)
+		scheme, ok := sigScheme(alg, hid)
+		if !ok {
+			return false
+		}
+		n := 64
+		switch alg {
+		case 14:
+			n = 96
+		case 5, 7, 8, 10:
+			n = len(pub) - 4
+		}
+		if len(sig) != n {
+			return false
+		}
+		return in.bytesEqTerm(in.digestOfN("sig:"+scheme, pub, dig, n), sig)
+	}
+	ext["encoding/asn1.Unmarshal"] = func(in *Interp, fr *frame, args []value) value {
+		b := args[0].([]value)
+		if len(b) < 3 || b[0] != value(uint64(0x30)) || b[1] != value(uint64(0xEC)) {
+			panic(in.unsupported("asn1.Unmarshal of anything but the ECDSA signature stand-in"))
+		}
+		rs := b[3:]
+		dst := args[1].(iface).v.(*value)
+		st := (*dst).(structV)
+		mk := func(x []value) *value {
+			var cell value = structV{false, append([]value(nil), x...)}
+			return &cell
+		}
+		nst := structV{mk(rs[:len(rs)/2]), mk(rs[len(rs)/2:])}
+		_ = st
+		in.store(dst, nst)
+		return tuple{[]value(nil), iface{}}
+	}
+	ext["crypto/rsa.VerifyPKCS1v15"] = func(in *Interp, fr *frame, args []value) value {
+		pk := args[0].(*value)
+		if pk == nil {
+			in.targetPanicStr("runtime error: invalid memory address or nil pointer dereference")
+		}
+		st := (*pk).(structV)
+		nb := in.stripZeros(bigBytes(in, st[0]), 0)
+		e := st[1]
+		var eb []value
+		for sh := 24; sh >= 0; sh -= 8 {
+			switch ev := e.(type) {
+			case uint64:
+				eb = append(eb, (ev>>uint(sh))&0xff)
+			case *Term:
+				eb = append(eb, norm(in.ts.Extract(ev, uint8(sh), 8)))
+			}
+		}
+		key := append(eb, nb...)
+		hid := args[1].(uint64)
+		scheme := fmt.Sprintf("rsa-h%d", hid)
+		in.stubs["verify:"+scheme]++
+		sig := args[3].([]value)
+		bad := in.newError(mkstr("crypto/rsa: verification error"))
+		if len(sig) != len(nb) {
+			return bad
+		}
+		want := in.digestOfN("sig:"+scheme, key, append([]value(nil), args[2].([]value)...), len(nb))
+		if in.decideV(in.bytesEqTerm(want, sig), "rsa.verify") {
+			return iface{}
+		}
+		return bad
+	}
+	ext["crypto/ecdsa.Verify"] = func(in *Interp, fr *frame, args []value) value {
+		pk := args[0].(*value)
+		st := (*pk).(structV)
+		curve := st[0].(iface).v.(*native).obj.(string)
+		n := 64
+		if curve == "P384" {
+			n = 96
+		}
+		in.stubs["verify:ecdsa-"+curve]++
+		x, ok1 := padLeft(in.stripZeros(bigBytes(in, st[1]), 1), n/2)
+		y, ok2 := padLeft(in.stripZeros(bigBytes(in, st[2]), 1), n/2)
+		r, ok3 := padLeft(in.stripZeros(bigBytes(in, args[2]), 1), n/2)
+		s, ok4 := padLeft(in.stripZeros(bigBytes(in, args[3]), 1), n/2)
+		if !(ok1 && ok2 && ok3 && ok4) {
+			return false
+		}
+		key := append(append([]value(nil), x...), y...)
+		want := in.digestOfN("sig:ecdsa-"+curve, key, append([]value(nil), args[1].([]value)...), n)
+		return in.decideV(in.bytesEqTerm(want, append(append([]value(nil), r...), s...)), "ecdsa.verify")
+	}
+	ext["crypto/ed25519.Verify"] = func(in *Interp, fr *frame, args []value) value {
+		pub := args[0].([]value)
+		if len(pub) != 32 {
+			in.targetPanicStr("ed25519: bad public key length")
+		}
+		in.stubs["verify:ed25519"]++
+		sig := args[2].([]value)
+		if len(sig) != 64 {
+			return false
+		}
+		want := in.digestOfN("sig:ed25519", append([]value(nil), pub...), append([]value(nil), args[1].([]value)...), 64)
+		return in.decideV(in.bytesEqTerm(want, sig), "ed25519.verify")
+	}
+}
+
+// decideV decides a bool-or-term condition (forking when symbolic).
+func (in *Interp) decideV(c value, why string) bool {
+	switch c := c.(type) {
+	case bool:
+		return c
+	case *Term:
+		return in.decide(c, why)
+	}
+	panic("decideV")
 }
